@@ -1,0 +1,30 @@
+//go:build verif
+
+package tracer
+
+// Contracts for the HTTP/2 connection tracer (C15), http2.go.
+//
+// Frame splitter (http2FrameTracer): a byte stream, however it is chunked, is cut into the
+// client preface (request direction only), 9-byte frame headers and payloads of the declared
+// length; the representation invariant below holds between calls, so no chunking can make a
+// slice expression go out of range, and a frame is handed to the parser exactly when its
+// buffer holds its header plus exactly its declared payload.
+
+//@ spec wfSplitter(h *http2FrameTracer) bool = h != nil && h.c != nil && h.decoder != nil &&
+//@    len(h.prefix) < 9 && len(h.prefaceBytes) <= 24 && 0 <= h.actual && h.actual <= 16777215 && 0 <= h.expecting && h.expecting <= 16777215 &&
+//@    (h.expecting == 0 ? (h.actual == 0 && len(bufContent[fieldaddr(h, frame)]) == 0) : (h.actual < h.expecting && len(h.prefix) == 0 && len(bufContent[fieldaddr(h, frame)]) == 9 + h.actual))
+
+//@ func prefaceIsValid
+//@   pure
+//@   ensures result ==> len(actual) == 24
+
+//@ func (*http2FrameTracer).emitFrame$1
+//@   requires h != nil
+//@   modifies bufContent
+//@   ensures bufContent[fieldaddr(h, frame)] == ""
+
+// emitFrame: parses the buffered frame and dispatches it; always leaves the buffer empty.
+//@ func (*http2FrameTracer).emitFrame
+//@   requires h != nil && h.c != nil && h.decoder != nil
+//@   modifies bufContent, rdPos, wrOut, http2FrameTracer.broken, http2.Framer.ReadMetaHeaders, ghosts:h2*, ghosts:cpl*, ghosts:ev*, held
+//@   ensures bufContent[fieldaddr(h, frame)] == "" && (!result ==> h.broken)
